@@ -108,6 +108,11 @@ Definition c_step (deg : nat) (hs : handles) (o : cop) : option (handles * obs *
                             | None => None end
                 | None => None end
   | CSnap => Some (hs, OSnap (map (option_map (fun t => (itree_scan (collect_visit 0) EAscend 0 0 t [], ilen t))) hs), None)
+  (* Clear empties that tree only, whether or not its nodes go to the free list *)
+  | CClear h _ => match nth h hs None with
+                  | Some _ => Some (set_nth hs h (Some iempty), OUnit, Some iempty)
+                  | None => None end
+  | CNew d => if Nat.ltb d (length hs) then Some (set_nth hs d (Some iempty), OUnit, Some iempty) else None
   end.
 (* ownership as the copy-on-write code leaves it (two consequences of the heap-level model, C03_HeapWorld.v, that do not
    depend on the shape of the tree): after ReplaceOrInsert through a handle the root node belongs to the handle's context;
@@ -203,6 +208,10 @@ Definition cs_step (hs : shandles) (o : cop) : option (shandles * obs * option (
                 | Some L => Some (set_nth hs h (Some (fst (is_step L io))), snd (is_step L io), Some (fst (is_step L io)))
                 | None => None end
   | CSnap => Some (hs, OSnap (map (option_map (fun L => (L, Z.of_nat (length L)))) hs), None)
+  | CClear h _ => match nth h hs None with
+                  | Some _ => Some (set_nth hs h (Some []), OUnit, Some [])
+                  | None => None end
+  | CNew d => if Nat.ltb d (length hs) then Some (set_nth hs d (Some []), OUnit, Some []) else None
   end.
 Fixpoint cs_run (deg : nat) (hs : shandles) (l : list cstep) : bool :=
   match l with
@@ -295,7 +304,7 @@ Qed.
 Lemma c_run_sound deg : (2 <= deg)%nat -> forall l hs shs, Forall2 (hrel deg) hs shs -> c_run deg hs l = true -> cs_run deg shs l = true.
 Proof.
   intros Hd. induction l as [|[[o r] sh] l IH]; intros hs shs HR H; [reflexivity|].
-  cbn [c_run] in H. cbn [cs_run]. destruct o as [s d|h io|]; cbn [c_step cs_step] in *.
+  cbn [c_run] in H. cbn [cs_run]. destruct o as [s d|h io| |h b|d]; cbn [c_step cs_step] in *.
   - pose proof (hrel_nth deg hs shs s HR) as Hn. destruct (nth s hs None) as [t|]; [|discriminate].
     destruct (nth s shs None) as [L|]; [|contradiction]. rewrite <- (hrel_len deg hs shs HR). cbn in Hn.
     destruct (Nat.ltb d (length hs)); [|discriminate].
@@ -310,6 +319,15 @@ Proof.
     apply (IH (set_nth hs h (Some t'))); [apply hrel_set; [exact HR|apply lim_small; assumption]|exact H3].
   - rewrite (hrel_snap deg hs shs HR) in H. apply andb_prop in H as [H H3]. apply andb_prop in H as [H _]. apply andb_prop in H as [H1 H1']. rewrite H1, H1'. cbn [andb].
     apply (IH hs); assumption.
+  - pose proof (hrel_nth deg hs shs h HR) as Hn. destruct (nth h hs None) as [t|]; [|discriminate].
+    destruct (nth h shs None) as [L|]; [|contradiction].
+    apply andb_prop in H as [H H3]. apply andb_prop in H as [H H2]. apply andb_prop in H as [H1 H1']. apply andb_prop in H2 as [H2 _].
+    rewrite (refines_list deg iempty [] (proj1 (refines_empty deg))) in H2. rewrite H1, H1', H2. cbn [andb].
+    apply (IH (set_nth hs h (Some iempty))); [apply hrel_set; [exact HR|apply refines_empty]|exact H3].
+  - rewrite <- (hrel_len deg hs shs HR). destruct (Nat.ltb d (length hs)); [|discriminate].
+    apply andb_prop in H as [H H3]. apply andb_prop in H as [H H2]. apply andb_prop in H as [H1 H1']. apply andb_prop in H2 as [H2 _].
+    rewrite (refines_list deg iempty [] (proj1 (refines_empty deg))) in H2. rewrite H1, H1', H2. cbn [andb].
+    apply (IH (set_nth hs d (Some iempty))); [apply hrel_set; [exact HR|apply refines_empty]|exact H3].
 Qed.
 
 (* concurrent callers: each caller's own history *)
